@@ -385,35 +385,56 @@ theorem brt_indexLoopB2 (url : BUrlFacts) (respLen respOff : Nat) (hro : respOff
     rw [ih tail _ hrest]
     simp [brt_mkReq]
 
+theorem brt_len_le_idx (σ : List IndexEntry) :
+    σ.length ≤ (((σ.map brt_idxE).map fun e => e.1 ++ e.2).flatten).length := by
+  induction σ with
+  | nil => simp
+  | cons e rest ih =>
+    have : 0 < (tstr e.url).length := by
+      unfold tstr
+      have := brt_encodeHead_pos 3 e.url.length
+      simp only [List.length_append]; omega
+    simp only [List.map_cons, List.flatten_cons, List.length_append, List.length_cons, brt_idxE] at ih ⊢
+    omega
+
 /-- (2) `parseIndex`'s entry loop on a successfully encoded b2 index map: the requests come out in the order in
     which `EncodeMap` emitted the entries (a permutation `σ` of the writer's entries) -/
 theorem brt_indexEntriesB2_encode (url : BUrlFacts) (respLen respOff : Nat) (hro : respOff + respLen < 2 ^ 64)
-    (ents : List IndexEntry) (idx : Bytes) (hall : ∀ e ∈ ents, brt_IdxOk url respLen e)
-    (h : encodeMap (ents.map brt_idxE) = .ok idx) (hlen : idx.length < 2 ^ 64) :
+    (ents : List IndexEntry) (idx : Bytes)
+    (hall0 : ∀ e ∈ ents, utf8Valid e.url = true ∧ indexUrl url e.url = some e.url ∧ e.offset + e.length ≤ respLen)
+    (h : encodeMap (ents.map brt_idxE) = .ok idx) (hlen : idx.length < 2 ^ 63) :
     ∃ (σ : List IndexEntry) (n : Nat) (bs : Bytes), σ.Perm ents ∧ decodeMapHeader idx = some (n, bs) ∧
       indexEntriesB2 url respLen respOff n bs [] = some (σ.map (brt_mkReq respOff)) := by
   obtain ⟨sorted, hp, _, ho⟩ := C11.encodeMap_layout _ _ h
   obtain ⟨σ, hσ, rfl⟩ := Sxg.perm_map_exists brt_idxE sorted ents hp
   have hn : ents.length = σ.length := hσ.length_eq.symm
+  have hall : ∀ e ∈ ents, brt_IdxOk url respLen e := by
+    intro e he
+    obtain ⟨a1, a2, a3⟩ := hall0 e he
+    refine ⟨a1, ?_, a2, a3⟩
+    have hm : (brt_idxE e).1 ++ (brt_idxE e).2 ∈ ((σ.map brt_idxE).map fun e => e.1 ++ e.2) :=
+      List.mem_map.mpr ⟨brt_idxE e, List.mem_map.mpr ⟨e, hσ.symm.subset he, rfl⟩, rfl⟩
+    have h1 := Sxg.length_le_flatten _ _ hm
+    have h2 := congrArg List.length ho
+    simp only [List.length_append, brt_idxE, tstr] at h1 h2
+    omega
   refine ⟨σ, σ.length, ((σ.map brt_idxE).map fun e => e.1 ++ e.2).flatten, hσ, ?_, ?_⟩
   · rw [ho, List.length_map, hn]
     refine C12.roundtrip_mapHeader _ ?_ _
     -- the entry count is below the byte length
     have hlen' := hlen
     rw [ho, List.length_append] at hlen'
-    have : σ.length ≤ (((σ.map brt_idxE).map fun e => e.1 ++ e.2).flatten).length := by
-      clear hp ho h hlen hlen' hσ hn
-      induction σ with
-      | nil => simp
-      | cons e rest ih =>
-        have : 0 < (tstr e.url).length := by
-          unfold tstr
-          have := brt_encodeHead_pos 3 e.url.length
-          simp only [List.length_append]; omega
-        simp only [List.map_cons, List.flatten_cons, List.length_append, List.length_cons, brt_idxE] at ih ⊢
-        omega
+    have := brt_len_le_idx σ
     omega
   · have := brt_indexLoopB2 url respLen respOff hro σ [] [] (fun e he => hall e (hσ.subset he))
     rw [List.append_nil, List.nil_append] at this
     rw [List.map_map]
     exact this
+
+/-! ### 3. `loadMetadata` -/
+
+theorem brt_parseMagic_b2 (rest : Bytes) : parseMagic (BVer.magic .b2 ++ rest) = some (.b2, rest) := by
+  simp [parseMagic, BVer.magic, headerMagicB1, headerMagicB2, versionMagicB1, versionMagicB2]
+
+theorem brt_parseMagic_b1 (rest : Bytes) : parseMagic (BVer.magic .b1 ++ rest) = some (.b1, rest) := by
+  simp [parseMagic, BVer.magic, headerMagicB1, headerMagicB2, versionMagicB1, versionMagicB2]
